@@ -74,6 +74,21 @@ def bindings_in_text(text):
     return out
 
 
+ENTRY_RE = re.compile(r"BindGroupEntry\s*\{\s*binding:\s*(\d+)")
+
+
+def entry_bindings_in_text(text):
+    """{group: [binding numbers passed by from_bindings]} or None if the shape is unknown"""
+    out = {}
+    for m in re.finditer(r"impl\s+BindGroup(\d+)\s*\{", text):
+        g = int(m.group(1))
+        end = text.find("pub fn set", m.start())
+        if end < 0:
+            continue
+        out[g] = [int(x) for x in ENTRY_RE.findall(text[m.start():end])]
+    return out or None
+
+
 def main(tier, replay, t0):
     binp = core.build_drive()
     r = core.rng("c11")
@@ -202,6 +217,12 @@ def main(tier, replay, t0):
                         {g: sorted(v) for g, v in want.items()}:
                     viol.append(Violation("ok-but-wrong-slots", shape,
                                           "declared %r, module has %r" % (want, found), rp))
+                eb = entry_bindings_in_text(res.get("text", ""))
+                if eb is not None and {g: sorted(v) for g, v in eb.items()} != \
+                        {g: sorted(v) for g, v in want.items()}:
+                    viol.append(Violation("ok-but-wrong-entry-slots", shape,
+                                          "declared %r, from_bindings supplies %r" % (want, eb),
+                                          rp))
         if len(samples) < 6 and cid.startswith("r"):
             samples.append({"pairs": pairs, "validate": val, "used": used, "expected": exp,
                             "observed": key})
